@@ -41,6 +41,8 @@ fn oracle(buf: &[u8]) -> Result<Option<(usize, usize)>, ()> {
 
 #[test]
 fn n_find_header_window_limit() {
+    // the constant the crate EXPORTS (what an image builder would plant) is the header magic
+    assert_eq!(crate::MAGIC, 0xE852_50D6u32, "multiboot2_header::MAGIC");
     let mut cases = 0u32;
     for &buflen in &[8190usize, 8192, 8196, 8200, 8216, 8448] {
         for pos in 8150usize..=8210 {
